@@ -255,6 +255,16 @@ Fixpoint run (q : queue) (ops : list op) : list (res out) :=
     end
   end.
 
+(* the state a history leads to *)
+Fixpoint exec (q : queue) (ops : list op) : res queue :=
+  match ops with
+  | [] => Ok q
+  | o :: rest => do (q', _) <- step q o; exec q' rest
+  end.
+
+Definition exec_init (i : init) (ops : list op) : res queue :=
+  do q <- mk_init i; exec q ops.
+
 Definition run_init (i : init) (ops : list op) : list (res out) :=
   match mk_init i with
   | Ok q => run q ops
